@@ -19,7 +19,16 @@ InnerLink(i, signer, sigok) ==
 \* directory that belongs to the name before the dot (another step's delegation directory)
 SNames == {"s1", "s1.v2"}
 States == {"valid", "siblingdir", "othersigner", "misfiled", "unauthorised", "expired", "tampered", "innermissing",
-           "innerunauth", "innerbadsig", "innerrule", "wrongdir", "ownersigned", "nosig", "innerbyparent"}
+           "innerunauth", "innerbadsig", "innerrule", "wrongdir", "ownersigned", "nosig", "innerbyparent",
+           \* the sub-layout has an inspection of its own: passing; exiting with status 3; passing with a rule it breaks
+           "innerinspok", "innerinspfail", "innerinsprule"}
+
+JCmd(code) == [kind |-> "exit", code |-> code, effect |-> "none", path |-> << >>, digest |-> "h2"]
+InnerInsp(state) ==
+  IF state \notin {"innerinspok", "innerinspfail", "innerinsprule"} THEN << >>
+  ELSE <<[name |-> "j1", namec |-> <<"j", "1">>, cmd |-> JCmd(IF state = "innerinspfail" THEN 3 ELSE 0),
+          em |-> <<Simple("ALLOW", <<"*">>)>>,
+          ep |-> IF state = "innerinsprule" THEN <<Simple("DISALLOW", <<"*">>)>> ELSE <<Simple("ALLOW", <<"*">>)>>]>>
 
 InnerSteps(n, state) ==
   \* "innerbyparent": the inner steps name the delegating functionary's own key, which the sub-layout's key
@@ -38,7 +47,7 @@ SubSigs(state) ==
 
 SubDoc(n, state) ==
   [LayoutD(SubSigs(state), IF state = "expired" THEN -5 ELSE 1000, <<"k3", "k2">>,
-           InnerSteps(n, state), << >>)
+           InnerSteps(n, state), InnerInsp(state))
    EXCEPT !.edit = IF state = "tampered" THEN "threshold" ELSE "none"]
 
 FileKey(state) == IF state = "unauthorised" THEN "k2" ELSE "k1"
